@@ -173,11 +173,12 @@ theorem loop_body_run (cx : Cx) {ops : List LItem} {sa sb : St} {trB : Nat → S
     (hB : PieceOK cx ops sa sb trB env') (sL eB : Nat) (tail : List LItem) {r ib : Nat}
     (hp : Placed cx.rs r ib ([.label sL false] ++ ops ++ [.label eB false] ++ tail)) (k : Nat) (b : Src.B)
     (hag : AgreeOn cx.N cx.Z b (trB k b).1) (m j : Nat) (hex : ExitsOK cx m j sa env') (hin : NamedIn cx sb)
-    (hafter : R2 cx m j ⟨r, ib + ops.length + 2⟩ k) : R2 cx m j ⟨r, ib⟩ (trB k b).2 ∧ LabExport cx env' m j b (trB k b).1 := by
+    (hafter : falls ops = true → R2 cx m j ⟨r, ib + ops.length + 2⟩ k) :
+    R2 cx m j ⟨r, ib⟩ (trB k b).2 ∧ LabExport cx env' m j b (trB k b).1 := by
   have hp' : Placed cx.rs r ib ([.label sL false] ++ ops ++ ([.label eB false] ++ tail)) := by
     simpa [List.append_assoc] using hp
   have hafter' : falls ops = true → R2 cx m j ⟨r, ib + 1 + ops.length⟩ k := by
-    intro _
+    intro hfo
     have hit : itemAt cx.rs ⟨r, ib + 1 + ops.length⟩ = some (.label eB false) := by
       have e0 : ib + 1 + ops.length = ib + ([LItem.label sL false] ++ ops).length := by simp; omega
       rw [e0]
@@ -185,7 +186,7 @@ theorem loop_body_run (cx : Cx) {ops : List LItem} {sa sb : St} {trB : Nat → S
     refine R2.silL (lab_label hit) ?_
     have e : (⟨r, ib + 1 + ops.length⟩ : LPos).next = ⟨r, ib + ops.length + 2⟩ := by
       simp only [LPos.next, LPos.mk.injEq, true_and]; omega
-    rw [e]; exact hafter
+    rw [e]; exact hafter hfo
   exact ⟨(block_enter cx hB sL _ hp' k b hag m j hex hin hafter').1, block_labs cx hB sL _ hp' k b hag m j hex hin hafter'⟩
 
 end ESV.Comp
